@@ -154,7 +154,7 @@ Proof. vm_compute. reflexivity. Qed.
 (* both engines: Start is admitted while the status is Recovering. When the retries are exhausted
    (or the nested Start fails) the old cleanup writes Degraded over the run the user just started *)
 Definition w_start_in_backoff_v1 : list act :=
-  start_v1 0 ++ [AOpenFail 0; AEnd 0] ++ clean 0 1 ++ start_v1 1 ++ [AClean 0 1] ++ clean 0 3 ++ [AOpen 1].
+  start_v1 0 ++ [AOpenFail 0; AKill 0 CaTransient; AEnd 0] ++ clean 0 1 ++ start_v1 1 ++ [AClean 0 1] ++ clean 0 3 ++ [AOpen 1].
 Lemma start_in_backoff_degrades_live_run_v1 :
   match final (cfg_v1 true) w_start_in_backoff_v1 with
   | Some s => quiescent s && status_eqb (s_status s) Degraded && is_live (s_runs s 1) && negb (agrees s)
@@ -174,7 +174,7 @@ Proof. vm_compute. reflexivity. Qed.
 (* v1: the user's Start and the recovery's nested Start both pass the status check: two runs are
    published, the map ends up pointing at the other one *)
 Definition w_double_start_v1 : list act :=
-  start_v1 0 ++ [AOpenFail 0; AEnd 0] ++ clean 0 8 ++ [AOpenFail 1; AEnd 1; ACall KStart 1] ++ user 5 ++ clean 0 1.
+  start_v1 0 ++ [AOpenFail 0; AKill 0 CaTransient; AEnd 0] ++ clean 0 8 ++ [AOpenFail 1; AKill 1 CaTransient; AEnd 1; ACall KStart 1] ++ user 5 ++ clean 0 1.
 Lemma double_start_v1 :
   match final (cfg_v1 true) w_double_start_v1 with
   | Some s => status_eqb (s_status s) Running && negb (running_map_ok s)
@@ -193,7 +193,7 @@ Proof. vm_compute. reflexivity. Qed.
    tomb.ErrStillAlive for a run that died of a failure and report it as stopped by the user: the error is
    dropped, nothing recovers, nothing degrades *)
 Definition w_late_kill_v1 : list act :=
-  start_v1 0 ++ [AOpen 0; AInject 0 CaTransient; ATd 0; AEnd 0] ++ clean 0 1 ++ [AKill 0 CaTransient] ++ clean 0 3.
+  start_v1 0 ++ [AOpen 0; AInject 0 CaTransient; AKill 0 CaTransient; ATd 0; AEnd 0; AClean 0 1] ++ clean 0 3.
 Lemma failure_reported_as_user_stopped_v1 :
   match trace (cfg_v1 false) init w_late_kill_v1 with
   | Some (ls, s) =>
@@ -205,7 +205,10 @@ Lemma failure_reported_as_user_stopped_v1 :
   end = true.
 Proof. vm_compute. reflexivity. Qed.
 
-(* v2 Kills synchronously before Done: the same schedule is not a behaviour of the v2 model *)
-Lemma no_late_kill_v2 :
-  trace (cfg_v2 false) init (start_v2 0 ++ [AInject 0 CaTransient; ATd 0]) = None.
+(* v2 Kills synchronously before Done: the same schedule (same choice at the cleanup's read) recovers *)
+Lemma no_late_read_v2 :
+  match trace (cfg_v2 false) init (start_v2 0 ++ [AInject 0 CaTransient; AKill 0 CaTransient; ATd 0; AEnd 0; AClean 0 1]) with
+  | Some (_, s) => status_eqb (s_status s) Recovering
+  | None => false
+  end = true.
 Proof. vm_compute. reflexivity. Qed.
